@@ -61,6 +61,7 @@ func (fv *FuncVer) afterCall(st *State, calleeName string) {
 			}
 		}
 		ups = append(ups, upd{cl.Var, env.eval(cl.Expr).T})
+		fv.hookFired[cl] = true
 	}
 	for _, u := range ups {
 		st.globals["gl:"+u.name] = u.v
@@ -78,6 +79,7 @@ func (fv *FuncVer) afterCall(st *State, calleeName string) {
 			}
 		}
 		st.assume(fv.evalBool(env, cl.Expr))
+		fv.hookFired[cl] = true
 	}
 }
 
